@@ -211,6 +211,15 @@ def c18_3(c: Ctx) -> None:
         facts = Facts(lambda a: a in atoms, cg=None, stable={f'{fut}.done()'} if not h.is_async else set())
         guard = ' and '.join([f'not {fut}.done()'] + [f'{f}({ev})' for f in chosen] + ([f'not exclude({ev})'] if 'exclude' in params and not any(f in carries_exclude for f in chosen) else []))
         p = q.guard_search(g, sn, guard, facts)
+        if p is not None and 'predicate' in chosen and any('predicate is' in U(x) for x in ast.walk(h.node) if isinstance(x, ast.Compare)):
+            # `predicate=None` means "no predicate": the handler may test `predicate is not None` itself instead of expect() replacing None by an always-true filter.
+            # Decided by cases on the parameter (it is not re-bound in the handler).
+            atoms2 = atoms | {'predicate'}
+            facts2 = Facts(lambda a: a in atoms2, cg=None, stable={f'{fut}.done()', 'predicate'} if not h.is_async else {'predicate'})
+            guard_none = ' and '.join([f'not {fut}.done()'] + [f'{f}({ev})' for f in chosen if f != 'predicate'] + ([f'not exclude({ev})'] if 'exclude' in params and not any(f in carries_exclude for f in chosen) else []))
+            p_none = q.guard_search(g, sn, guard_none, facts2, env={'predicate': 'N'})
+            p_some = q.guard_search(g, sn, guard, facts2, env={'predicate': 'NN'})
+            p = p_none or p_some
         if p is None:
             c.ok(where(h, sn.ast), f'set_result only under {guard} (covering the caller\'s {required_pos})')
         else:
